@@ -35,8 +35,13 @@ if os.path.exists(_kf):
 COMMON_ASSUMPTIONS = ["A1", "A6", "A7"]
 
 _TB = ["z3 SMT solver (cvc5 for string queries z3 leaves open)", "pyvc VC generator (/verif/pyvc)", "CPython ast module"]
+from .bounded import query_enum_check  # noqa: E402
+
+_TBB = ["CPython executing the real functions", "in-memory lmdb/msgpack stand-ins (/verif/stubs)", "sqlite3", "the NIP-01 oracle in /verif/bounded/query_enum.py"]
 PROPERTIES = {
-    "C12": {"level": "proof", "trusted_base": _TB, "assumptions": ["EV", "LMDB", "SQL"]},
+    "C02": {"level": "exploration", "trusted_base": _TBB + _TB, "assumptions": ["EV", "LMDBSTUB", "ENUM"], "extra_checks": [query_enum_check("C02")]},
+    "C11": {"level": "exploration", "trusted_base": _TBB, "assumptions": ["EV", "LMDBSTUB", "ENUM"], "extra_checks": [query_enum_check("C11")]},
+    "C12": {"level": "proof", "trusted_base": _TB, "assumptions": ["EV", "LMDB", "SQL", "ENUM"], "extra_checks": [query_enum_check("C12")]},
     "C10": {"level": "proof", "trusted_base": _TB, "assumptions": ["EV", "LMDB"]},
     "C17": {"level": "proof", "trusted_base": _TB, "assumptions": ["A3", "GCSQL", "SQL"]},
     "C20": {"level": "proof", "trusted_base": _TB, "assumptions": ["TCP", "A4", "EV"]},
@@ -106,6 +111,10 @@ def finding_still_fails(f, reports):
 
 
 def try_replay(prop, unit, name, insts):
+    if unit.startswith("bounded:"):
+        # found by executing the real functions on the recorded store and filter: the case is its own failing input
+        return {"replayed": True, "confirmed": True, "how": "case produced by running the real code (bounded enumeration); re-run with ./check %s --replay <this file>" % prop,
+                "case": insts[0].get("example")}
     fn = REPLAYERS.get(unit)
     if fn is None:
         return {"replayed": False, "reason": "no native replay driver for this unit; the obligation, path and solver model are recorded"}
@@ -115,6 +124,17 @@ def try_replay(prop, unit, name, insts):
 def replay(prop, path):
     rp = json.load(open(os.path.join(ROOT, path) if not os.path.isabs(path) else path))
     print(json.dumps({k: rp[k] for k in ("property", "obligation", "unit", "function")}, indent=1))
+    if rp["unit"].startswith("bounded:"):
+        case = rp["instances"][0]["example"]
+        tmp = os.path.join(ROOT, "replays", "_case.json")
+        json.dump(case, open(tmp, "w"))
+        env = dict(os.environ)
+        env["PYTHONPATH"] = ROOT
+        p = subprocess.run([sys.executable, os.path.join(ROOT, "bounded", "query_enum.py"), "--case", tmp], env=env, capture_output=True, text=True)
+        print(p.stdout + p.stderr[-500:])
+        if p.returncode == 1:
+            print("VIOLATION property=%s replay=%s" % (prop, path))
+        return p.returncode
     out = try_replay(prop, rp["unit"], rp["obligation"], rp["instances"])
     print(json.dumps(out, indent=1, default=str))
     if out.get("replayed") and out.get("confirmed"):
